@@ -368,6 +368,42 @@ func checkActionTyping(r *Run, ga *GA, pfx string) {
 		// range variables over label.([]interface{})
 		elemOf := map[types.Object]string{}
 		commaOK := map[*ast.TypeAssertExpr]bool{}
+		// locals defined once as label.([]interface{}) and never assigned again stand for the label's list
+		listOf := map[types.Object]string{}
+		reassigned := map[types.Object]bool{}
+		ast.Inspect(fd.Body, func(x ast.Node) bool {
+			switch s := x.(type) {
+			case *ast.AssignStmt:
+				for i, l := range s.Lhs {
+					id, ok := l.(*ast.Ident)
+					if !ok {
+						continue
+					}
+					if s.Tok != token.DEFINE || info.Defs[id] == nil {
+						reassigned[info.Uses[id]] = true
+						continue
+					}
+					if len(s.Lhs) == len(s.Rhs) {
+						if ta, ok := ast.Unparen(s.Rhs[i]).(*ast.TypeAssertExpr); ok && ta.Type != nil {
+							if pid, ok := ast.Unparen(ta.X).(*ast.Ident); ok {
+								if pn, ok := params[info.Uses[pid]]; ok {
+									listOf[info.Defs[id]] = pn
+								}
+							}
+						}
+					}
+				}
+			case *ast.IncDecStmt:
+				if id, ok := s.X.(*ast.Ident); ok {
+					reassigned[info.Uses[id]] = true
+				}
+			case *ast.UnaryExpr:
+				if id, ok := ast.Unparen(s.X).(*ast.Ident); ok && s.Op == token.AND {
+					reassigned[info.Uses[id]] = true
+				}
+			}
+			return true
+		})
 		ast.Inspect(fd.Body, func(x ast.Node) bool {
 			switch s := x.(type) {
 			case *ast.RangeStmt:
@@ -377,6 +413,13 @@ func checkActionTyping(r *Run, ga *GA, pfx string) {
 							if v, ok := s.Value.(*ast.Ident); ok {
 								elemOf[info.Defs[v]] = pn
 							}
+						}
+					}
+				}
+				if id, ok := ast.Unparen(s.X).(*ast.Ident); ok {
+					if pn, ok := listOf[info.Uses[id]]; ok && !reassigned[info.Uses[id]] {
+						if v, ok := s.Value.(*ast.Ident); ok {
+							elemOf[info.Defs[v]] = pn
 						}
 					}
 				}
